@@ -1,7 +1,7 @@
 #!/bin/bash
 # tools/confirm_seed.sh <PID> [suffix]  — confirm a sub-agent's mutant myself in a scratch worktree, then run every quick check against it
 PID=$1; SUF=${2:-1}
-SRC=/tmp/wt/$PID
+SRC=${SEEDSRC:-/tmp/wt}/$PID
 PATCH=$SRC/patch_$PID.diff; DEMO=$SRC/demo_$PID.py
 [ -f "$PATCH" ] && [ -f "$DEMO" ] || { echo "missing patch/demo for $PID"; exit 2; }
 W=$(mktemp -d /tmp/confirm.XXXXXX)
